@@ -54,6 +54,12 @@ fn main() {
             args.get(6).map(|s| s == "seq").unwrap_or(false),
         ),
         "build-bench" => threadsim::build_bench(),
+        "huge" if args.len() >= 5 => {
+            let t0 = std::time::Instant::now();
+            let (v, matches, bytes) = streamdrv::huge_run(args[2].parse().unwrap(), args[3].parse().unwrap(), args[4].parse().unwrap());
+            println!("huge: {:?} matches={} bytes={} in {:.1}s", v, matches, bytes, t0.elapsed().as_secs_f64());
+            if v.is_some() { 1 } else { 0 }
+        }
         "tgen" if args.len() >= 5 => {
             let sc = tgen::gen_thread(&args[2], args[3].parse().unwrap(), args[4].parse().unwrap());
             println!("{}", serde_json::to_string_pretty(&sc).unwrap());
